@@ -280,6 +280,8 @@ def deserialize_address(address, encoding=None, network=None):
                 elif networks_p2sh:
                     script_type = 'p2sh'
                     networks = networks_p2sh
+                if script_type and len(public_key_hash) != 20:
+                    raise BKeyError("Invalid address %s, payload of %d bytes instead of 20" % (address, len(public_key_hash)))
                 if network:
                     if network not in networks:
                         raise BKeyError("Network %s not found in extracted networks: %s" % (network, networks))
